@@ -2011,7 +2011,7 @@ func (x *Exec) checkInvariants(s *State, entry *State, lc *loopCtx, phase string
 		if label == "" {
 			label = fmt.Sprintf("%d", i+1)
 		}
-		goal := x.trBool(inv.Expr, env)
+		goal := x.trInvariant(inv, env)
 		x.obligeSplit(s, "loop"+lc.ord+"."+phase, label, goal, inv.Text, inv.Pos)
 	}
 }
@@ -2031,8 +2031,58 @@ func (x *Exec) assumeInvariants(s *State, entry *State, lc *loopCtx) {
 		env.bound[k] = v
 	}
 	for _, inv := range lc.spec.Invariants {
-		s.assume(x.trBool(inv.Expr, env))
+		s.assume(x.trInvariant(inv, env))
 	}
+}
+
+// trInvariant translates a loop invariant. A conjunct that mentions an identifier which is no longer a variable of the
+// function (a local removed by a refactoring, and not matched as a rename) is dropped - both where the invariant is
+// assumed and where it is checked. Invariants are proof hints: a weaker invariant can only make obligations fail.
+func (x *Exec) trInvariant(inv *Clause, env *TrEnv) *Term {
+	try := func(e *SExpr) (t *Term, err *unsupported) {
+		defer func() {
+			if r := recover(); r != nil {
+				if us, ok := r.(unsupported); ok {
+					err = &us
+					return
+				}
+				panic(r)
+			}
+		}()
+		return x.trBool(e, env), nil
+	}
+	t, err := try(inv.Expr)
+	if err == nil {
+		return t
+	}
+	if !strings.Contains(err.msg, "unknown identifier ") {
+		panic(*err)
+	}
+	var conj []*SExpr
+	var flat func(e *SExpr)
+	flat = func(e *SExpr) {
+		if e.Kind == "binary" && e.Name == "&&" && len(e.Args) == 2 {
+			flat(e.Args[0])
+			flat(e.Args[1])
+			return
+		}
+		conj = append(conj, e)
+	}
+	flat(inv.Expr)
+	var parts []*Term
+	for _, c := range conj {
+		ct, cerr := try(c)
+		if cerr != nil {
+			if !strings.Contains(cerr.msg, "unknown identifier ") {
+				panic(*cerr)
+			}
+			i := strings.Index(cerr.msg, "unknown identifier ")
+			x.assumptions[fmt.Sprintf("a conjunct of a loop invariant of %s mentions `%s`, which is no longer a variable of the function: the conjunct is dropped (invariants are proof hints)", x.fi.Name, strings.TrimSpace(cerr.msg[i+len("unknown identifier "):]))] = true
+			continue
+		}
+		parts = append(parts, ct)
+	}
+	return And(parts...)
 }
 
 // runLoop is the generic loop scheme.
